@@ -131,6 +131,13 @@ def translate(repo, TieBroken):
     fn = _func(dm, "_cosine_drift", TieBroken)
     a = _assigns(fn, "order")
     cos_order = a[0] if a else "<absent>"
+    # the columns themselves: normalisation, sample index, the loop over k and the constant column
+    cos_exprs = []
+    for target in ("len_tim", "n_times", "nfct", "cdrift[:, k - 1]", "cdrift[:, order - 1]"):
+        a = _assigns(fn, target)
+        cos_exprs.append((target, a[-1] if a else "<absent>"))
+    loops = [ast.unparse(n.iter) for n in ast.walk(fn) if isinstance(n, ast.For)]
+    cos_exprs.append(("for k in", loops[0] if len(loops) == 1 else "<absent>"))
 
     L = ["/- GENERATED by harness/props/c07_translate.py from the text of",
          "   nipy/modalities/fmri/hemodynamic_models.py and design_matrix.py.  Do not edit. -/",
@@ -149,5 +156,8 @@ def translate(repo, TieBroken):
          f"def defaultRegNamesExpr : String := {_lean_str(default_names)}",
          f"def polyTmaxExpr : String := {_lean_str(poly_tmax)}",
          f"def cosineOrderExpr : String := {_lean_str(cos_order)}",
+         "/-- assignments of `_cosine_drift` that build the columns -/",
+         "def cosineExprs : List (String × String) :=\n  [" + ",\n   ".join(
+             f"({_lean_str(t)}, {_lean_str(v)})" for t, v in cos_exprs) + "]",
          "", "end NipyVerif.C07.Gen", ""]
     return [("NipyVerif/Gen/C07Source.lean", "\n".join(L))]
